@@ -1532,6 +1532,7 @@ package mocrelay
 //@ func ServeMux.ServeHTTP
 //@   serves C20
 //@   requires mux != nil && r != nil && mux.Relay != nil
+//@   requires g(wtext, refof(w)) == ""
 //@   requires mux.NIP11 != nil ==> (!has(respHeader(w), "Content-Type") && !has(respHeader(w), "Access-Control-Allow-Origin") && g(wstatus, refof(w)) == 0)
 //@   ensures[C20] old(isUpgrade(r)) ==> (g(routed, r) == 1 && g(wtext, refof(w)) == old(g(wtext, refof(w))))
 //@   ensures[C20] (!old(isUpgrade(r)) && old(wantsNIP11(r)) && mux.NIP11 != nil) ==> g(routed, r) == 2
